@@ -426,3 +426,60 @@ func GoodKey(pool uint64, denom string) []byte {
 func BadKeyOpenPrefix(pool uint64, denom string) []byte {
 	return []byte(fmt.Sprintf("idx/%d/%s", pool, denom))
 }
+
+// ---- M: MustStore / StoredObjectIsPassed ; O: LoopBodyStraight
+type Book struct{ Total int }
+
+type Rec struct{ V int }
+
+func save(r *Rec) { _ = r }
+
+func (b *Book) GoodMustStore(n int) error {
+	if n < 0 {
+		return errNo
+	}
+	b.Total = b.Total - n
+	return nil
+}
+
+func (b *Book) BadMustStore(n int) error {
+	if n == 0 {
+		return nil // "nothing to do" also skips the bookkeeping
+	}
+	b.Total = b.Total - n
+	return nil
+}
+
+func GoodStoredPassed(rs []Rec) {
+	for _, r := range rs {
+		r.V = r.V * 2
+		save(&r)
+	}
+}
+
+func BadStoredPassed(rs []Rec) {
+	for _, r := range rs {
+		c := r
+		c.V = c.V * 2
+		save(&r)
+	}
+}
+
+func GoodStraight(xs []int) []int {
+	out := make([]int, len(xs))
+	for i, x := range xs {
+		out[i] = x + 1
+	}
+	return out
+}
+
+func BadStraightSkip(xs []int) []int {
+	out := make([]int, 0, len(xs))
+	for _, x := range xs {
+		if x == 0 {
+			continue
+		}
+		out = append(out, x+1)
+	}
+	return out
+}
